@@ -53,7 +53,7 @@ def run(ctx):
               "model side by the extracted decode_header, blank lines around the items, no final newline; raw + redirect: true cases: connection count judged with the "
               "loose bound (net/http's Client.Do does not always reuse the connection of a ReadRequest-built request, design/C09.md); "
               "round 7: the gun kind connect (plain and connect-ssl) as a dimension of wire and hist cases: the gun's target is a tunnel front that answers the CONNECT "
-              "and pipes to the recording server (tun = CONNECTs / connections behind / foreign authorities / non-CONNECT, judged c/c/0/0 with c = accepted - probes); "
+              "and pipes to the recording server (tun = CONNECTs / connections behind / foreign authorities / non-CONNECT, judged c/<=c/0/0 with c = accepted - probes); "
               "dial.timeout as a dimension (1 s / 2 s on any case; 1 s — the documented example — on the 3% of wire cases whose instances pause 1.3-1.6 s between their requests, so that "
               "every instance outlives it); hist cases with W<ms> events (dial.timeout 1 s, waits of 1.2-1.3 s with requests in flight or not) compared exactly with the "
               "extracted TIMED transport model tt_run under the extracted gun_arm (Model/HttpTunnel.v); "
